@@ -71,6 +71,32 @@ def run(chk, orch):
                 a["workloads"] = [{"spec": spec, "same_basename_dir": True}, {"spec": spec2, "same_basename_dir": True}]
             orch.submit(0, "scenarios:cache_session", a, tag=("h", k), timeout=180)
             hist[k] = a
+        # directed histories (the canonical stale-cache scenarios), first round only
+        if rounds == 1:
+            T = dict(TINY, seed=4711)
+            T2 = dict(TINY, seed=4712, genes_per_chr=3)
+            ser = {"policy": "serial", "seed": 0}
+
+            def R(wl, out, **o):
+                return {"run": [{"wl": wl, "opts": o, "out": out}], "sched": ser}
+            templates = [
+                ([{"spec": T, "same_basename_dir": True}, {"spec": T2, "same_basename_dir": True}], [R(0, "A"), R(1, "A"), R(0, "A")]),
+                ([{"spec": T, "same_basename_dir": True}, {"spec": T2, "same_basename_dir": True}], [R(0, "A"), R(1, "A"), R(1, "B"), R(0, "B"), R(1, "A")]),
+                ([{"spec": T}], [R(0, "A"), {"op": "edit_gtf", "wl": 0}, R(0, "B"), R(0, "A")]),
+                ([{"spec": T}], [R(0, "A"), {"op": "delete_db", "out": "A"}, R(0, "B"), R(0, "A")]),
+                ([{"spec": T}], [R(0, "A"), {"op": "touch_gtf", "wl": 0}, R(0, "A"), R(0, "B")]),
+                ([{"spec": T}], [R(0, "A", complete_genedb=True), R(0, "B"), R(0, "A", complete_genedb=True)]),
+                ([{"spec": T}], [R(0, "A", gtf_repr="gz"), {"op": "edit_gtf", "wl": 0}, R(0, "A", gtf_repr="gz"), R(0, "B")]),
+            ]
+            for ti, (wl_, st_) in enumerate(templates):
+                a = {"workloads": wl_, "steps": st_}
+                orch.submit(0, "scenarios:cache_session", a, tag=("h", 1000 + ti), timeout=180)
+                hist[1000 + ti] = a
+        # BAM merger machine
+        nmm = 4 if quick else 16
+        for k in range(nmm):
+            orch.submit(k % 2, "machines.c12:run", {"seed": chk.seed * 1000 + rounds * 100 + k, "max_examples": 60 if quick else 200},
+                        tag=("mm", k, k % 2), timeout=600)
         # ---------------- R: representations
         rep = {}
         nr = 2 if quick else 6
@@ -112,6 +138,23 @@ def run(chk, orch):
                 chk.harness_error(r.get("err"))
                 continue
             res[tag] = r["res"]
+        for tag, r in sorted(res.items()):
+            if tag[0] != "mm":
+                continue
+            if r.get("error"):
+                chk.harness_error("machine: " + r["error"])
+                continue
+            chk.evaluations += r["examples"]
+            chk.extra["merger_machine_cases"] = chk.extra.get("merger_machine_cases", 0) + r["examples"]
+            chk.probes["merger_file_exhausted_early_with_3+_files"] += r.get("file_exhausted_early_with_3+_files", 0)
+            for i in range(r["distinct"]):
+                chk.distinct.add("MM%d/%d/%d" % (rounds, tag[1], i))
+            for s_ in r.get("samples", [])[:1]:
+                chk.sample({"kind": "records dealt into files (merger machine)", "case": s_}, cap=4)
+            if r.get("fail"):
+                f = r["fail"]
+                chk.violation("P:merge", {"kind": f["problems"][0][0]}, f["problems"][0][1],
+                              {"engine": "machine:c12", "oracle": "module:checks.c12", "kind": "MM", "case": f["case"], "hashseed": tag[2]})
         # judge H
         for k, a in hist.items():
             r = res.get(("h", k))
@@ -211,6 +254,13 @@ def run(chk, orch):
 
 
 def replay(doc, orch):
+    if doc.get("kind") == "MM":
+        jid = orch.submit(doc.get("hashseed", 0), "machines.c12:replay_case", {"case": doc["case"]})
+        r = orch.run_all()[jid][1]
+        if not r.get("ok"):
+            return False, "harness: %s" % r.get("err")
+        probs = r["res"]["problems"]
+        return bool(probs), "\n".join("%s: %s" % (k, t) for k, t in probs) + "\ncase: " + json.dumps(doc["case"])
     if doc.get("kind") == "P":
         i1 = orch.submit(doc["golden"]["hashseed"], doc["golden"]["fn"], doc["golden"]["args"])
         i2 = orch.submit(doc["run"]["hashseed"], doc["run"]["fn"], doc["run"]["args"])
